@@ -29,6 +29,7 @@ var MangleKinds = []string{
 	"multi-region-exception-with-results", "multi-more-regions", "multi-fewer-regions", "multi-exception-no-name",
 	"kv-length-huge", "kv-length-wrap", "kv-keylen-bad", "kv-rowlen-bad", "kv-truncated",
 	"compress-total-wrong", "compress-chunk-past", "compress-chunk-garbage", "compress-chunk-zero", "compress-total-huge",
+	"value-resize", "scan-empty-partial",
 }
 
 func splitFrame(frame []byte) (h *pb.ResponseHeader, body, cells []byte, ok bool) {
@@ -356,6 +357,79 @@ func Mangle(r Rnd, method string, codec bool, structuralOnly bool, frame []byte)
 		}
 		cells = raw
 		setMeta(uint32(len(cells)))
+	case "value-resize":
+		// well-formed cells whose value has a length the caller does not expect
+		// (a counter that is not 8 bytes long, an empty region info, ...)
+		newVal := func() []byte { return garbage(r, []int{0, 1, 3, 7, 9, 12}[r.Intn(6)]) }
+		if len(cells) > 0 {
+			raw := cells
+			if codec {
+				dec, err := BlockDecompress(raw)
+				if err != nil {
+					return frame, "", false
+				}
+				raw = dec
+			}
+			cs, err := DecodeCells(raw)
+			if err != nil || len(cs) == 0 {
+				return frame, "", false
+			}
+			cs[r.Intn(len(cs))].Value = newVal()
+			raw = encodeCells(cs)
+			if codec {
+				raw = BlockCompress(raw, SnappyChunk)
+			}
+			cells = raw
+			setMeta(uint32(len(cells)))
+			break
+		}
+		if !hasBody {
+			return frame, "", false
+		}
+		var res *pb.Result
+		var m proto.Message
+		switch method {
+		case "Get":
+			g := &pb.GetResponse{}
+			if proto.Unmarshal(body, g) != nil {
+				return frame, "", false
+			}
+			res, m = g.Result, g
+		case "Mutate":
+			g := &pb.MutateResponse{}
+			if proto.Unmarshal(body, g) != nil {
+				return frame, "", false
+			}
+			res, m = g.Result, g
+		default:
+			return frame, "", false
+		}
+		if res == nil || len(res.Cell) == 0 {
+			return frame, "", false
+		}
+		res.Cell[r.Intn(len(res.Cell))].Value = newVal()
+		body, _ = proto.Marshal(m)
+	case "scan-empty-partial":
+		// a partial result without cells in the middle of a scan response
+		if method != "Scan" || !hasBody {
+			return frame, "", false
+		}
+		m := &pb.ScanResponse{}
+		if proto.Unmarshal(body, m) != nil {
+			return frame, "", false
+		}
+		switch {
+		case len(m.CellsPerResult) > 0 && len(m.PartialFlagPerResult) == len(m.CellsPerResult):
+			i := r.Intn(len(m.CellsPerResult) + 1)
+			m.CellsPerResult = append(m.CellsPerResult[:i:i], append([]uint32{0}, m.CellsPerResult[i:]...)...)
+			m.PartialFlagPerResult = append(m.PartialFlagPerResult[:i:i], append([]bool{true}, m.PartialFlagPerResult[i:]...)...)
+		case len(m.Results) > 0:
+			i := r.Intn(len(m.Results) + 1)
+			m.Results = append(m.Results[:i:i], append([]*pb.Result{{Partial: proto.Bool(true)}}, m.Results[i:]...)...)
+		default:
+			return frame, "", false
+		}
+		body, _ = proto.Marshal(m)
 	case "compress-total-wrong", "compress-chunk-past", "compress-chunk-garbage", "compress-chunk-zero", "compress-total-huge":
 		if !codec || len(cells) < 12 {
 			return frame, "", false
@@ -388,7 +462,11 @@ var MetaCorruptKinds = []string{"regioninfo-empty", "regioninfo-short", "regioni
 
 // CorruptMeta damages the cells of one meta row.
 func CorruptMeta(r Rnd, cells []Cell) ([]Cell, string) {
-	kind := MetaCorruptKinds[r.Intn(len(MetaCorruptKinds))]
+	return CorruptMetaKind(r, cells, MetaCorruptKinds[r.Intn(len(MetaCorruptKinds))])
+}
+
+// CorruptMetaKind applies one given kind of damage to the cells of a meta row.
+func CorruptMetaKind(r Rnd, cells []Cell, kind string) ([]Cell, string) {
 	out := make([]Cell, 0, len(cells))
 	// damage to the row key (= the region name) applies to every cell of the row
 	var newRow []byte
